@@ -71,8 +71,14 @@ Tick(st) == [st EXCEPT !.now = @ + 1, !.last = "tick"]
 Gc(st) == LET keep == { m \in st.tdom : ~(st.now > st.table[m].exp) }
           IN [st EXCEPT !.tdom = keep, !.table = [x \in keep |-> st.table[x]], !.last = "gc"]
 
-\* malformed datagrams must be discarded: state unchanged, nothing handed up
-Bad(st, kind) == [st EXCEPT !.nbad = @ + 1, !.last = "discarded"]
+\* malformed datagrams must be discarded: state unchanged, nothing handed up  (short = shorter than the header; idxOver = index beyond the
+\* count of its own header, unknown sequence number; idxOverInflight = for a message being reassembled: index beyond the count announced so far)
+\* (as coded, Receive refreshes the expiry of the entry before the index check: a discarded datagram for a message in flight counts as activity)
+Bad(st, kind) ==
+    IF kind = "idxOverInflight"
+    THEN LET m == CHOOSE x \in st.tdom : \A y \in st.tdom : x <= y
+         IN [st EXCEPT !.table[m].exp = st.now + Expiry, !.nbad = @ + 1, !.last = "discarded"]
+    ELSE [st EXCEPT !.nbad = @ + 1, !.last = "discarded"]
 
 Apply(st, op) ==
     CASE op.a = "send"    -> Send(st, op.n)
@@ -89,7 +95,7 @@ EnabledOps(st) ==
           ELSE { [a |-> "lose", n |-> d[1], seq |-> d[2]] : d \in st.net })
     \cup (IF st.now < MaxTicks THEN {[a |-> "tick"]} ELSE {})
     \cup (IF st.last # "gc" /\ st.tdom # {} /\ st.now > 0 THEN {[a |-> "gc"]} ELSE {})
-    \cup (IF st.nbad < MaxBad THEN {[a |-> "bad", mode |-> k] : k \in {"short", "idxOver"}} ELSE {})
+    \cup (IF st.nbad < MaxBad THEN {[a |-> "bad", mode |-> k] : k \in {"short", "idxOver"} \cup (IF st.tdom # {} THEN {"idxOverInflight"} ELSE {})} ELSE {})
 
 \* ------------------------------------------------------------------ properties
 \* everything handed up is exactly one sent message, at most once
